@@ -1,6 +1,6 @@
 """C01 every loaded topology is well formed (structural necessary conditions of the load pipeline)."""
 from prog import *
-import pipe, filt, tab, oblig, setkind, effects, flags
+import pipe, filt, tab, oblig, setkind, effects, flags, linkfree
 import props.C18 as c18
 import props.C02 as c02
 
@@ -26,6 +26,9 @@ def run(chk, tier):
     chk.floor("R-SETKIND", "kinded bitmap operations", ns, 110)
     chk.rule("R-LISTKIND", "the four child lists never confused")
     setkind.listkind(chk, P, ["topology.c"])
+    chk.rule("R-LINKFREE", "an object handed to an insertion function (which links, merges-and-frees or frees it) is never released afterwards by its creator: no feasible path from an insertion of x to hwloc_free_unlinked_object(x) (may-dataflow + correlated-condition path search)")
+    nlf = linkfree.run(chk, P)
+    chk.floor("R-LINKFREE", "release sites", nlf, 14)
     chk.rule("R-FLAGS", "topology flag words of hwloc_topology_set_flags")
     flags.run(chk, P, "C01", effects=E)
     chk.decided += ["the load pipeline establishes sets, levels, total memory, symmetric-subtree and group depths in dependency order on every success path",
